@@ -190,6 +190,10 @@ def lift(repo, spec):
         raise LiftError("empty segment")
     seg = text[stmts[a][0]:stmts[b - 1][1]]
     raw = seg
+    for name in spec.get("await_calls", []):
+        seg, n = shim_calls(seg, name)
+        if n < 1:
+            raise LiftError("environment call self.%s(..) not found: source changed shape" % name)
     for rw in spec.get("rewrites", []):
         rx, rep = rw[0], rw[1]
         mn = rw[2] if len(rw) > 2 else 1
@@ -207,6 +211,39 @@ def lift(repo, spec):
     # multi-line use statements
     uses = re.findall(r"^use\s[^;]*;", text, re.M)
     return raw, seg, uses
+
+
+def match_paren(text, open_pos):
+    depth = 0
+    for i, c in scan(text, open_pos):
+        if c in "([{":
+            depth += 1
+        elif c in ")]}":
+            depth -= 1
+            if depth == 0:
+                return i
+    raise LiftError("unbalanced parentheses")
+
+
+def shim_calls(seg, name):
+    """R-await / R-call: `self.NAME(args).await` and `self.NAME(args)` -> `self.k_NAME(args)`"""
+    n = 0
+    pos = 0
+    pat = re.compile(r"\bself\s*\.\s*%s\s*\(" % re.escape(name))
+    while True:
+        m = pat.search(seg, pos)
+        if not m:
+            break
+        op = m.end() - 1
+        cl = match_paren(seg, op)
+        rest = seg[cl + 1:]
+        ma = re.match(r"\s*\.await", rest)
+        tail = rest[ma.end():] if ma else rest
+        repl = "self.k_%s(" % name
+        seg = seg[:m.start()] + repl + seg[op + 1:cl + 1] + tail
+        pos = m.start() + len(repl)
+        n += 1
+    return seg, n
 
 
 def strip_noncode(seg):
